@@ -5,15 +5,20 @@ import (
 	"encoding/json"
 	"errors"
 	"fmt"
+	"net/http"
+	"net/http/httptest"
+	"path"
 	"sort"
 	"strings"
 	"sync"
 	"sync/atomic"
 	"time"
 
+	"github.com/ipfs/go-cid"
 	"github.com/ipni/go-libipni/find/model"
 	"github.com/ipni/go-libipni/pcache"
 	"github.com/libp2p/go-libp2p/core/peer"
+	"github.com/multiformats/go-multihash"
 
 	"verif/harness/vlib"
 )
@@ -39,6 +44,9 @@ type Op struct {
 	Fail     []int `json:"fail,omitempty"`
 	CancelAt int   `json:"cancel_at"`
 	Overlap  int   `json:"overlap,omitempty"`
+	// refresh: while the pass is held inside source 0's FetchAll, a lookup of this provider
+	// (> 0) starts; it can only proceed once the pass has released the write slot
+	MissDuring int `json:"miss_during,omitempty"`
 
 	// get: lookup of Pid; sources in Fail return an error from Fetch.  DuringMiss: a
 	// Refresh request arrives while the miss is being fetched.
@@ -71,6 +79,9 @@ func (o Op) String() string {
 		if o.Overlap > 0 {
 			a = append(a, fmt.Sprintf("overlap=%d", o.Overlap))
 		}
+		if o.MissDuring > 0 {
+			a = append(a, fmt.Sprintf("get(p%d)-arrives-during", o.MissDuring))
+		}
 		if len(a) > 0 {
 			s += "(" + strings.Join(a, ",") + ")"
 		}
@@ -99,6 +110,10 @@ func OpsString(ops []Op) string {
 type History struct {
 	NSrc int  `json:"nsrc"`
 	Ops  []Op `json:"ops"`
+	// HTTP: the scripted sources are served by an HTTP server and reach the cache through
+	// pcache's own HTTP source (pcache.NewHTTPSource): JSON listing at /providers, one
+	// record at /providers/<id>
+	HTTP bool `json:"http,omitempty"`
 }
 
 // ---------------------------------------------------------------------------
@@ -141,6 +156,7 @@ type Step struct {
 	List       []RecV `json:"list"`          // List() after the step, sorted by provider
 	Len        int    `json:"len"`           // Len() after the step
 	Panic      string `json:"panic,omitempty"`
+	Mutated    string `json:"mutated,omitempty"` // a record handed out earlier no longer has the content it had
 	NoView     bool   `json:"no_view,omitempty"` // List/Len could not be observed right after this step
 }
 
@@ -189,7 +205,12 @@ func (s *source) FetchAll(ctx context.Context) ([]*model.ProviderInfo, error) {
 	case "cancel":
 		s.nextAll = ""
 		s.cancel()
-		return nil, ctx.Err()
+		// (over HTTP ctx is the request's: wait until the client has dropped the call)
+		select {
+		case <-ctx.Done():
+		case <-time.After(2 * time.Second):
+		}
+		return nil, context.Canceled
 	}
 	pids := make([]int, 0, len(s.content))
 	for p := range s.content {
@@ -247,7 +268,7 @@ func timeOf(s string) int64 {
 // from every other in content (addresses; extended providers present, absent, present with
 // other content; metadata), so that a record assembled from two versions is none of them.
 func versionInfo(pid int, t int64, tag int) *model.ProviderInfo {
-	pi := &model.ProviderInfo{AddrInfo: AddrInfo(pid, tag), LastAdvertisementTime: timeString(t)}
+	pi := &model.ProviderInfo{AddrInfo: AddrInfo(pid, tag), LastAdvertisementTime: timeString(t), LastAdvertisement: VersionCid(tag)}
 	switch tag % 3 {
 	case 1:
 		pi.ExtendedProviders = &model.ExtendedProviders{
@@ -263,6 +284,15 @@ func versionInfo(pid int, t int64, tag int) *model.ProviderInfo {
 		}
 	}
 	return pi
+}
+
+// VersionCid is the head advertisement CID of version `tag`: different for every version
+func VersionCid(tag int) cid.Cid {
+	h, err := multihash.Sum([]byte(fmt.Sprintf("verif-ad-%d", tag)), multihash.SHA2_256, -1)
+	if err != nil {
+		panic(err)
+	}
+	return cid.NewCidV1(cid.Raw, h)
 }
 
 func cloneInfo(pi *model.ProviderInfo) *model.ProviderInfo {
@@ -303,6 +333,82 @@ func (g registry) recOf(pi *model.ProviderInfo) RecV {
 }
 
 // ---------------------------------------------------------------------------
+// Delivery through pcache's own HTTP source
+
+type httpHub struct {
+	once sync.Once
+	srv  *httptest.Server
+	mu   sync.Mutex
+	srcs map[string]*source
+	next int
+}
+
+var hub httpHub
+
+func (h *httpHub) start() {
+	h.once.Do(func() {
+		h.srcs = map[string]*source{}
+		h.srv = httptest.NewServer(http.HandlerFunc(func(w http.ResponseWriter, r *http.Request) {
+			h.mu.Lock()
+			s := h.srcs[r.Header.Get("X-Verif-Source")]
+			h.mu.Unlock()
+			if s == nil {
+				http.Error(w, "no such source", http.StatusBadGateway)
+				return
+			}
+			w.Header().Set("Content-Type", "application/json")
+			if strings.HasSuffix(r.URL.Path, "/providers") {
+				infos, err := s.FetchAll(r.Context())
+				if err != nil {
+					http.Error(w, err.Error(), http.StatusInternalServerError)
+					return
+				}
+				if infos == nil {
+					infos = []*model.ProviderInfo{}
+				}
+				json.NewEncoder(w).Encode(infos)
+				return
+			}
+			pid, err := peer.Decode(path.Base(r.URL.Path))
+			if err != nil {
+				http.Error(w, err.Error(), http.StatusBadRequest)
+				return
+			}
+			info, err := s.Fetch(r.Context(), pid)
+			if err != nil {
+				http.Error(w, err.Error(), http.StatusInternalServerError)
+				return
+			}
+			if info == nil {
+				http.Error(w, "not found", http.StatusNotFound)
+				return
+			}
+			json.NewEncoder(w).Encode(info)
+		}))
+	})
+}
+
+// register serves the scripted source and returns pcache's HTTP source for it
+func (h *httpHub) register(s *source) (pcache.ProviderSource, func()) {
+	h.start()
+	h.mu.Lock()
+	h.next++
+	key := fmt.Sprint(h.next)
+	h.srcs[key] = s
+	h.mu.Unlock()
+	hs, err := pcache.NewHTTPSource(h.srv.URL, nil)
+	if err != nil {
+		panic(err)
+	}
+	hs.(interface{ AddHeader(string, string) }).AddHeader("X-Verif-Source", key)
+	return hs, func() {
+		h.mu.Lock()
+		delete(h.srcs, key)
+		h.mu.Unlock()
+	}
+}
+
+// ---------------------------------------------------------------------------
 // Runner
 
 type RunResult struct {
@@ -319,6 +425,11 @@ func Run(h History, ttl time.Duration, settle time.Duration) (res RunResult) {
 	for i := range srcs {
 		srcs[i] = &source{idx: i, content: map[int]*model.ProviderInfo{}, recs: map[int]RecV{}}
 		psrcs[i] = srcs[i]
+		if h.HTTP {
+			hs, unregister := hub.register(srcs[i])
+			defer unregister()
+			psrcs[i] = hs
+		}
 	}
 	pc, err := pcache.New(pcache.WithSource(psrcs...), pcache.WithPreload(false), pcache.WithRefreshInterval(0), pcache.WithTTL(ttl))
 	if err != nil {
@@ -344,9 +455,31 @@ func Run(h History, ttl time.Duration, settle time.Duration) (res RunResult) {
 		}
 		return d
 	}
+	lastStep := false
+	type heldRec struct {
+		pi  *model.ProviderInfo
+		key string
+	}
+	var held []heldRec
+	hold := func(pi *model.ProviderInfo) {
+		if len(held) < 4096 {
+			held = append(held, heldRec{pi, contentKey(pi)})
+		}
+	}
 	observe := func(st *Step) {
+		// a record once handed to a caller never changes
+		from := 0
+		if len(held) > 48 && !lastStep {
+			from = len(held) - 48 // the whole list is re-read at the end of the history
+		}
+		for _, hr := range held[from:] {
+			if now := contentKey(hr.pi); now != hr.key && st.Mutated == "" {
+				st.Mutated = fmt.Sprintf("a record handed out earlier (%s) now reads %s", short(hr.key), short(now))
+			}
+		}
 		for _, pi := range pc.List() {
 			st.List = append(st.List, reg.recOf(pi))
+			hold(pi)
 		}
 		sort.Slice(st.List, func(i, j int) bool { return st.List[i].Pid < st.List[j].Pid })
 		st.Len = pc.Len()
@@ -366,7 +499,14 @@ func Run(h History, ttl time.Duration, settle time.Duration) (res RunResult) {
 		}
 	}
 
+	lastCall := -1
 	for oi, op := range h.Ops {
+		if op.Kind == "refresh" || op.Kind == "get" {
+			lastCall = oi
+		}
+	}
+	for oi, op := range h.Ops {
+		lastStep = oi == lastCall
 		vnow := epoch*VirtualEpoch + int64(oi)
 		switch op.Kind {
 		case "set":
@@ -433,12 +573,60 @@ func Run(h History, ttl time.Duration, settle time.Duration) (res RunResult) {
 			}
 			a0, f0 := counts()
 			var waits []Step
+			var missStep *Step
 			func() {
 				defer func() {
 					if r := recover(); r != nil {
 						st.Panic = fmt.Sprint(r)
 					}
 				}()
+				if op.Overlap == 0 && op.MissDuring > 0 {
+					// a lookup arrives while the pass is inside source 0's FetchAll
+					gate, entered := make(chan struct{}), make(chan struct{})
+					srcs[0].mu.Lock()
+					srcs[0].gateAll, srcs[0].entered = gate, entered
+					srcs[0].mu.Unlock()
+					done := make(chan error, 1)
+					go func() { done <- pc.Refresh(ctx) }()
+					<-entered
+					gs := Step{OpIndex: oi, Kind: "get", Now: vnow, Pid: op.MissDuring}
+					type gr struct {
+						pi *model.ProviderInfo
+						e  error
+					}
+					gdone := make(chan gr, 1)
+					go func() {
+						pi, e := pc.Get(context.Background(), Peer(op.MissDuring))
+						gdone <- gr{pi, e}
+					}()
+					time.Sleep(settle) // the lookup has loaded its snapshot and waits for the slot (or hit)
+					close(gate)
+					e := <-done
+					st.Err = e != nil
+					if e != nil {
+						st.ErrText = e.Error()
+					}
+					g := <-gdone
+					if g.e != nil {
+						gs.Err, gs.ErrText = true, g.e.Error()
+					}
+					if g.pi != nil {
+						hold(g.pi)
+						r := reg.recOf(g.pi)
+						gs.Got = &r
+					}
+					for _, s := range srcs {
+						s.mu.Lock()
+						fo := FetchOut{Kind: "notfound"}
+						if r, ok := s.recs[op.MissDuring]; ok {
+							fo = FetchOut{Kind: "found", Rec: r}
+						}
+						s.mu.Unlock()
+						gs.Fetches = append(gs.Fetches, fo)
+					}
+					missStep = &gs
+					return
+				}
 				if op.Overlap == 0 {
 					e := pc.Refresh(ctx)
 					st.Err = e != nil
@@ -486,6 +674,15 @@ func Run(h History, ttl time.Duration, settle time.Duration) (res RunResult) {
 			a1, f1 := counts()
 			st.CallsAll, st.CallsFetch = delta(a0, a1), delta(f0, f1)
 			observe(&st)
+			if missStep != nil {
+				// sequentially: the pass, then the lookup (it needed the slot, or it hit
+				// in the snapshot it had loaded and changed nothing)
+				missStep.CallsAll, missStep.CallsFetch = make([]int, h.NSrc), st.CallsFetch
+				missStep.List, missStep.Len, missStep.Mutated = st.List, st.Len, st.Mutated
+				st.CallsFetch = make([]int, h.NSrc)
+				st.NoView, st.List, st.Len = true, nil, 0
+				waits = append(waits, *missStep)
+			}
 			if op.Overlap > 0 && st.Panic == "" {
 				// What the pass itself asked: every source, or those up to the cancelling one.
 				expect := make([]int, h.NSrc)
@@ -583,6 +780,7 @@ func Run(h History, ttl time.Duration, settle time.Duration) (res RunResult) {
 						st.Err, st.ErrText = true, e.Error()
 					}
 					if pi != nil {
+						hold(pi)
 						r := reg.recOf(pi)
 						st.Got = &r
 					}
@@ -613,6 +811,7 @@ func Run(h History, ttl time.Duration, settle time.Duration) (res RunResult) {
 						st.Err, st.ErrText = true, g.e.Error()
 					}
 					if g.pi != nil {
+						hold(g.pi)
 						r := reg.recOf(g.pi)
 						st.Got = &r
 					}
@@ -706,6 +905,18 @@ func Run(h History, ttl time.Duration, settle time.Duration) (res RunResult) {
 		}
 	}
 	return res
+}
+
+func short(js string) string {
+	var pi model.ProviderInfo
+	if json.Unmarshal([]byte(js), &pi) != nil {
+		return js
+	}
+	x := "none"
+	if pi.ExtendedProviders != nil {
+		x = fmt.Sprintf("%d chain-level/%d contextual", len(pi.ExtendedProviders.Providers), len(pi.ExtendedProviders.Contextual))
+	}
+	return fmt.Sprintf("{provider %d, address tag %d, time %d, extended providers: %s}", PeerIndex(pi.AddrInfo.ID), AddrTag(pi.AddrInfo.Addrs), timeOf(pi.LastAdvertisementTime), x)
 }
 
 // RunStable repeats Run until the timing margins held (at most tries times).
